@@ -19,7 +19,7 @@ def modelStep (d : DState) (op : List String) (_obs : List (List String)) : DSta
   | ["run"] =>
     -- `-p` (every test in its own process) is not part of the writer model: such a run is only judged by the oracle
     if d.reg.separate then (d, []) else
-    (d, ["out " ++ Proto.hex (TeamCity.streamV (d.reg.verbosity == 2) (runAll d.reg.filter d.reg.scripts))])
+    (d, ["out " ++ Proto.hex (TeamCity.streamV (d.reg.verbosity == 2) (runRepeated d.reg.repeats d.reg.filter d.reg.scripts))])
   | ["skip"] => (d, [])
   | w =>
     match applyOp d.reg w with
@@ -130,7 +130,7 @@ def specRun (reg : Reg) (out : Text.Bytes) : Option String :=
     else if !(failuresInOpenTest none msgs) then
       some "a failure message does not belong to the currently open test (its name is not the name announced by testStarted, or no test is open)"
     else if !(balanced msgs) then some "messages are not balanced (suite/test start and finish do not pair up)"
-    else matchAll 0 (wantAll reg.separate reg.filter scripts) (msgs.filter (fun m => !(isText m)))
+    else matchAll 0 ((List.range reg.repeats).flatMap fun _ => wantAll reg.separate reg.filter scripts) (msgs.filter (fun m => !(isText m)))
 
 def specAll (ops : List Proto.Op) : Option String :=
   let rec go (reg : Reg) (i : Nat) : List Proto.Op → Option String
